@@ -703,6 +703,10 @@ func closeWhileBusy(r *rand.Rand, dir string, job int, t *Trace) {
 		os.Stderr.Write(buf[:runtime.Stack(buf, true)])
 		os.Exit(3)
 	}
+	if lockExists(dir) {
+		fmt.Fprintln(os.Stderr, "LOCK-LEFT: Close, called while a background", []string{"compaction", "flush"}[job], "was in the middle of its work, returned but left the LOCK file behind")
+		os.Exit(3)
+	}
 	t.Stat("schedule.close_while_busy")
 	os.RemoveAll(dir)
 }
